@@ -96,6 +96,16 @@ def add_point_validation(ctx, prog, rule):
                 cmp_blocks.append((bi, d[1].rsplit("::", 1)[-1], [side(x) for x in d[2][:2]]))
             elif d and d[0] == "binop" and d[1] in ("Lt", "Gt", "Le", "Ge"):
                 cmp_blocks.append((bi, d[1].lower(), [side(d[2]), side(d[3])]))
+            elif d and d[0] == "call" and d[1].rsplit("::", 1)[-1] == "contains" and len(d[2]) == 2:
+                # `(min..=max).contains(&value)`: both comparisons in one test; the value 0 edge is "out of range"
+                rng = strip(d[2][0])
+                ends = None
+                if rng[0] == "call" and rng[1].endswith("RangeInclusive::<Idx>::new") and len(rng[2]) == 2:
+                    ends = rng[2]
+                elif rng[0] == "agg" and rng[1][0] == "adt" and "RangeInclusive" in str(rng[1][1]) and len(rng[2]) >= 2:
+                    ends = rng[2][:2]
+                if ends is not None:
+                    cmp_blocks.append((bi, "contains", [side(strip(ends[0])), side(strip(ends[1])), side(strip(d[2][1]))]))
     for di, dv in enumerate(VARIANTS):
         for vi, vv in enumerate(VARIANTS):
             g = assume_cfg(f, [(is_dt, di), (is_val, vi)])
@@ -111,9 +121,12 @@ def add_point_validation(ctx, prog, rule):
                 pass_hi = both and find_path(gb, entry, {val_loop}, set(hi)) is None
                 # ... and the out-of-range edges cannot continue the loop
                 out_ok = both
+                ops_ = {b_: op_ for b_, op_, _ in cmp_blocks}
                 for b in lo + hi:
                     e = switch_edges(f, b)
                     tr = e["otherwise"]      # `value < min` / `value > max` is true
+                    if ops_.get(b) == "contains":
+                        tr = e.get("0", e["otherwise"])          # not contained
                     if tr in gb and find_path(gb, [tr], {val_loop}, set()) is not None:
                         out_ok = False
                 range_ok[dv] = (pass_lo, pass_hi, out_ok)
